@@ -771,6 +771,61 @@ def run_oracle(ctx, res):
     res.extra["min_length_default"] = c.min_length()
 
 
+# ------------------------------------------------------------------ one crypto object, two threads
+def two_users_case(key, n, m, a_kind, b_kind, k):
+    """The outgoing thread encrypts and the incoming thread decrypts with ONE crypto object (tcp.py shares it).
+    User A performs a_kind ('enc' / 'dec'); when A is at line k inside aes.py user B performs b_kind to completion
+    (or blocks, if the object serialises its users).  Both results must be what they are alone, and two encryptions
+    never share a nonce.  Returns (failure text | None, whether line k was reached)."""
+    import interleave as IL
+    c = construct(key, n, m)
+    ta, tb = "message of user A \u00e9", "B's longer message, two blocks long........"
+    peer = construct(key, n, m)
+    wire_a, wire_b = bytes(peer.encrypt(ta)), bytes(peer.encrypt(tb))
+    fa = (lambda: bytes(c.encrypt(ta))) if a_kind == "enc" else (lambda: c.decrypt(wire_a))
+    fb = (lambda: bytes(c.encrypt(tb))) if b_kind == "enc" else (lambda: c.decrypt(wire_b))
+    r = IL.second_caller(fa, fb, ("aes.py",), k)
+    if not r["reached"]:
+        return None, False
+    probs = []
+    for who, kind, text, val, exc in (("A", a_kind, ta, r["a"], r["a_exc"]), ("B", b_kind, tb, r["b"], r["b_exc"])):
+        if exc is not None:
+            probs.append("%s's %s raised %s: %s" % (who, "encrypt" if kind == "enc" else "decrypt of an authentic message", type(exc).__name__, exc))
+        elif kind == "dec" and val != text:
+            probs.append("%s's decrypt returned %r for %r" % (who, val, text))
+        elif kind == "enc":
+            try:
+                back = peer.decrypt(val)
+            except Exception as ex:      # noqa
+                back = "<%s: %s>" % (type(ex).__name__, ex)
+            if back != text:
+                probs.append("%s's encrypt output decrypts to %r, not to %r" % (who, back, text))
+    nonces = [nonce_field(v, n, m) for kind, v in ((a_kind, r["a"]), (b_kind, r["b"])) if kind == "enc" and isinstance(v, bytes)]
+    nonces += [nonce_field(w, n, m) for kind, w in ((a_kind, wire_a), (b_kind, wire_b)) if kind == "dec"]
+    if len(set(nonces)) != len(nonces):
+        probs.append("a nonce was used twice under one key: %s" % [x.hex() for x in nonces])
+    return ("; ".join(probs) if probs else None), True
+
+
+def two_users_half(res):
+    n_cases = 0
+    for (k, n, m) in [(16, 16, 16), (24, 8, 4), (32, 12, 8)]:
+        key = [97 + (i % 20) for i in range(k)]
+        for a_kind, b_kind in (("enc", "enc"), ("enc", "dec"), ("dec", "enc"), ("dec", "dec")):
+            for line in range(1, 40):
+                bad, reached = two_users_case(key, n, m, a_kind, b_kind, line)
+                if not reached:
+                    break
+                n_cases += 1
+                if bad:
+                    fail(res, "two-users-of-one-crypto-object", "one BoboDistributedCryptoAES used by two threads, second user "
+                         "(%s) running when the first (%s) is at line %d of aes.py: %s" % (b_kind, a_kind, line, bad),
+                         dict(kind="two-users", key=key, nonce_length=n, mac_length=m, a=a_kind, b=b_kind, line=line))
+                    break
+            res.note_case(("two-users", k, n, m, a_kind, b_kind), True)
+    res.extra["two_user_interleavings"] = n_cases
+
+
 # ------------------------------------------------------------------ entry points
 def run(ctx, res):
     common.impl_modules_fresh()
@@ -808,6 +863,7 @@ def run(ctx, res):
         res.mismatches.append(dict(case=public_case(case), impl=exp, model=model_out))
         # a disagreement that is itself a property failure is found by the oracle below; nothing to do here
     run_oracle(ctx, res)
+    two_users_half(res)
     res.failures.sort(key=fsize)
 
 
@@ -826,6 +882,11 @@ def replay(obj):
         print("every message of the sequence round-trips with a fresh nonce" if bad is None else
               "message %d is not decryptable / well-formed / fresh" % (bad + 1))
         return 1 if bad is not None else 0
+    if kind == "two-users":
+        bad, _ = two_users_case(case["key"], case["nonce_length"], case["mac_length"], case["a"], case["b"], case["line"])
+        print("one crypto object, two threads (%s interrupted at line %d by %s):" % (case["a"], case["line"], case["b"]),
+              bad or "both results are what they are alone; nonces distinct")
+        return 1 if bad else 0
     if kind not in ("roundtrip", "tamper", "nonce-batch", "nonce-draw"):
         print(obj)
         return 0
